@@ -708,6 +708,20 @@ func bases() []baseDoc {
 				"Q": R("#/components/securitySchemes/Q2"), "Q2": M{"type": "apiKey", "in": "query", "name": "k"},
 				"X": R("#/components/securitySchemes/X2"), "X2": M{"type": "apiKey", "in": "header", "name": "X-C", "x-ogen-custom-security": true},
 				"I": R("#/components/securitySchemes/I2"), "I2": M{"type": "http", "scheme": "basic"}}}, "3.0.3"))
+	// schemas whose treatment is decided by looking at their own keywords (type, format, default):
+	// the decision must be the same through a reference
+	add("anyOf of a referenced integer and a number",
+		base(M{"/a": M{"post": op("a", M{"requestBody": jb(M{"anyOf": []any{R("#/components/schemas/Int"), M{"type": "number"}}})})}}, M{"schemas": M{"Int": M{"type": "integer"}}}, "3.0.3"))
+	add("multipart file member through a reference",
+		base(M{"/a": M{"post": op("a", M{"requestBody": M{"required": true, "content": M{"multipart/form-data": M{"schema": M{"type": "object", "required": []any{"file"}, "properties": M{"file": R("#/components/schemas/Blob"), "note": strS}}}}}})}},
+			M{"schemas": M{"Blob": M{"type": "string", "format": "binary"}}}, "3.0.3"))
+	add("member with a default through a reference",
+		base(M{"/a": M{"post": op("a", M{"requestBody": jb(M{"type": "object", "properties": M{"at": R("#/components/schemas/Stamp"), "n": R("#/components/schemas/Count"), "s": R("#/components/schemas/Word"), "pp": R("#/components/schemas/PP")}})})}},
+			M{"schemas": M{"Stamp": M{"type": "string", "format": "date-time", "default": "2020-01-01T00:00:00Z"}, "Count": M{"type": "integer", "default": 5}, "Word": M{"type": "string", "default": "w"},
+				"PP": M{"type": "object", "properties": M{"a": strS}, "patternProperties": M{"^x-": M{"type": "integer"}, "^y-": strS}}}}, "3.0.3"))
+	add("parameters with defaults, enums and formats through references",
+		base(M{"/a": M{"get": op("a", M{"parameters": []any{R("#/components/parameters/P"), M{"name": "n", "in": "query", "schema": M{"type": "integer", "default": 5}}, M{"name": "e", "in": "header", "schema": R("#/components/schemas/E")}}})}},
+			M{"parameters": M{"P": M{"name": "p", "in": "query", "schema": M{"type": "string", "default": "d", "enum": []any{"d", "e"}}}}, "schemas": M{"E": M{"type": "string", "format": "uuid"}}}, "3.0.3"))
 	add("everything at once",
 		base(M{
 			"/a/{id}": M{"parameters": []any{R("#/components/parameters/ID")}, "post": op("a", M{"parameters": []any{R("#/components/parameters/P")}, "requestBody": R("#/components/requestBodies/B"), "responses": M{"200": R("#/components/responses/R"), "default": R("#/components/responses/D")}})},
